@@ -325,9 +325,61 @@ type Party struct {
 	Addr map[wallet.BackendID]wallet.Address
 }
 
+// AccMap returns the party's account under every backend id its address map uses.
+func (p Party) AccMap() map[wallet.BackendID]wallet.Account {
+	m := map[wallet.BackendID]wallet.Account{}
+	for id := range p.Addr {
+		m[id] = accFor(id, p.Acc)
+	}
+	return m
+}
+
+// OnBackend returns the same key as addr (a sim address or one of an extra backend) as an address of
+// backend id; nil if id is not registered.
+func OnBackend(id wallet.BackendID, addr wallet.Address) wallet.Address {
+	b, err := addr.MarshalBinary()
+	if err != nil {
+		return nil
+	}
+	sim := new(simwallet.Address)
+	if sim.UnmarshalBinary(b) != nil {
+		return nil
+	}
+	if id != B {
+		ok := false
+		for _, x := range ExtraBackends {
+			ok = ok || x == id
+		}
+		if !ok {
+			return nil
+		}
+	}
+	return addrFor(id, sim)
+}
+
+// Any returns one of the party's addresses (they are all the same key).
+func (p Party) Any() wallet.Address {
+	for _, a := range p.Addr {
+		return a
+	}
+	return nil
+}
+
+// backendShape draws the backend ids a participant's address map uses: mostly {0}; with extra
+// backends registered (see multibackend.go) also {1}, {0,1}, {1,2}, {0,1,2} - the same key under each.
+func backendShape(r *rand.Rand) []wallet.BackendID {
+	if len(ExtraBackends) < 2 || r.Intn(10) < 7 {
+		return []wallet.BackendID{B}
+	}
+	return [][]wallet.BackendID{{1}, {0, 1}, {1, 2}, {0, 1, 2}, {2}}[r.Intn(5)]
+}
+
 // Parties returns n fresh participants.
 func Parties(r *rand.Rand, n int) []Party {
 	ps := make([]Party, n)
+	// one shape for all of them: the sim address type panics when compared with a missing entry,
+	// which is what wallet.IndexOfAddrs does for participants with different backend sets
+	shape := backendShape(r)
 	for i := range ps {
 		a := Account(r)
 		// a copy: the sim account's Address() points into its private key
@@ -336,7 +388,11 @@ func Parties(r *rand.Rand, n int) []Party {
 		if err := addr.UnmarshalBinary(b); err != nil {
 			panic(err)
 		}
-		ps[i] = Party{Acc: a, Addr: AddrMap(addr)}
+		m := map[wallet.BackendID]wallet.Address{}
+		for _, id := range shape {
+			m[id] = addrFor(id, addr)
+		}
+		ps[i] = Party{Acc: a, Addr: m}
 	}
 	return ps
 }
